@@ -89,6 +89,17 @@ Proof.
         (conj binary_reject_order_out_of_range (conj binary_reject_bad_multiplier multiplier_nan_rejected)))))).
 Qed.
 
+(* BinaryFormat::LoadBinary maps [0, header + size) over the file.  The size test accepts only if every mapped byte lies inside
+   the file, and rejects every file that is short by as little as one byte, the header's bytes included (seeded/C10-5). *)
+Theorem C10_binary_accept_implies_mapping_inside_file : forall file_size order size,
+  check_binary_size file_size order size = BinUndecided ->
+  forall offset, offset < total_header_size order + size -> offset < file_size.
+Proof. exact binary_size_accept_inside. Qed.
+
+Theorem C10_binary_reject_short_image : forall file_size order size,
+  file_size < total_header_size order + size -> check_binary_size file_size order size = BinReject Format.
+Proof. exact binary_size_reject_truncated. Qed.
+
 (* array model of the trie (TrieArrays.v).  Under the invariant trie_ok (as many pointers as records plus an end pointer;
    child ranges monotone and ending inside the array below) a query with in-vocabulary word ids touches only in-range
    indices of every array ... *)
